@@ -1,0 +1,28 @@
+//go:build verif
+
+package helpers
+
+// Contracts for the verification framework in /verif (comment-only file; it
+// contains no code and is excluded from normal builds by the build tag).
+
+// ---- C16: derived per-transition data ----
+
+// TickAt / ActiveAt: Time.Tick semantics (out of range = 0) and activity.
+//@ fn TickAt(t am.Time, i int) int := i < len(t) ? t[i] : 0
+//@ pred ActiveAt(t am.Time, i int) := !isnil(t) && odd(TickAt(t, i))
+
+// Added / removed are exactly the parity flips between the two times; a tick
+// change without a parity change (a Multi state called while active) counts as
+// added, but only when there is a previous time to compare with.
+//@ func GetTransitionStates(tx *am.Transition, index am.S) (added am.S, removed am.S, touched am.S)
+//@   props C16
+//@   abstracts the `touched` list (collected from debug-trace steps) is not specified
+//@   requires nn: tx != nil && (forall k int :: 0 <= k && k < len(tx.Steps) ==> tx.Steps[k] != nil)
+//@   ensures  removed: forall x string :: mem(removed, x) <==> (exists i int :: 0 <= i && i < len(index) && index[i] == x && ActiveAt(tx.TimeBefore, i) && !ActiveAt(tx.TimeAfter, i))
+//@   ensures  added:   forall x string :: mem(added, x) <==> (exists i int :: 0 <= i && i < len(index) && index[i] == x &&
+//@                       ((!ActiveAt(tx.TimeBefore, i) && ActiveAt(tx.TimeAfter, i)) ||
+//@                        (ActiveAt(tx.TimeBefore, i) == ActiveAt(tx.TimeAfter, i) && !isnil(tx.TimeBefore) && TickAt(tx.TimeBefore, i) != TickAt(tx.TimeAfter, i))))
+//@   loop 1 invariant removed: forall x string :: mem(removed, x) <==> (exists j int :: 0 <= j && j < i && index[j] == x && ActiveAt(before, j) && !ActiveAt(after, j))
+//@   loop 1 invariant added:   forall x string :: mem(added, x) <==> (exists j int :: 0 <= j && j < i && index[j] == x &&
+//@                       ((!ActiveAt(before, j) && ActiveAt(after, j)) ||
+//@                        (ActiveAt(before, j) == ActiveAt(after, j) && !isnil(before) && TickAt(before, j) != TickAt(after, j))))
